@@ -230,19 +230,29 @@ def main_exc(seed, n, out):
                     ok_f = exe.submit(module_level, tag)          # an unrelated call submitted first
                     f = exe.submit(raiser, exc)
                     batch.append((tag, kind, exc, f, ok_f))
+                import concurrent.futures as _cf
+
+                pend = 0
                 for tag, kind, exc, f, ok_f in batch:
                     try:
-                        f.result(timeout=120)
+                        f.result(timeout=25 if pend < 2 else 1)
                         got = {"class": None}
+                    except _cf.TimeoutError:
+                        got = {"class": "<future still pending after 25 s>"}
+                        pend += 1
                     except BaseException as e:  # noqa
                         got = canon_exc(e)
                     want = canon_exc(exc)
                     rec = {"mode": mname, "kind": "exc." + kind, "tag": tag, "ok": got == want, "shape": [want["class"], len(exc.args)]}
                     try:
-                        other = ok_f.result(timeout=120)
+                        other = ok_f.result(timeout=25 if pend < 2 else 1)
                         if canon(other) != canon(module_level(tag)):
                             rec["ok"] = False
                             rec["other"] = repr(other)[:200]
+                    except _cf.TimeoutError:
+                        rec["ok"] = False
+                        rec["other"] = "unrelated call still pending after 25 s"
+                        pend += 1
                     except BaseException as e:  # noqa
                         rec["ok"] = False
                         rec["other"] = "unrelated call failed: " + repr(e)[:200]
@@ -250,10 +260,17 @@ def main_exc(seed, n, out):
                         rec["got"], rec["want"] = got, want
                     res["cases"].append(rec)
             finally:
-                try:
-                    exe.shutdown(wait=True)
-                except BaseException:  # noqa  (shutdown re-raises a call's exception; not judged here)
-                    pass
+                def _sd(exe=exe):
+                    try:
+                        exe.shutdown(wait=True)
+                    except BaseException:  # noqa  (shutdown re-raises a call's exception; not judged here)
+                        pass
+
+                import threading as _th
+
+                _t = _th.Thread(target=_sd, daemon=True)
+                _t.start()
+                _t.join(30)
     with open(out, "w") as fh:
         json.dump(res, fh, default=str)
     os._exit(0)
@@ -317,9 +334,42 @@ def main():
             if got != want:
                 rec["got"], rec["want"] = got, want
             res["cases"].append(rec)
+    # presets of an init_function: the caller's own value always wins (explicit > preset > default)
+    for mname, kw in (("block1_init", dict(backend="local", block_allocation=True, max_workers=1, init_function=_presets)),
+                      ("block2_init_nodeps", dict(backend="local", block_allocation=True, max_workers=2, disable_dependencies=True,
+                                                  init_function=_presets))):
+        with executorlib.Executor(**kw) as exe:
+            batch = []
+            for c in range(6):
+                a = rng.randrange(0, 50)
+                kwargs = {k: rng.randrange(1000, 2000) for k in ("p0", "p1", "p2") if rng.random() < 0.5}
+                pos = [rng.randrange(500, 600)] if (rng.random() < 0.3 and "p0" not in kwargs) else []
+                batch.append((a, pos, kwargs, exe.submit(_takes_presets, a, *pos, **kwargs)))
+            for a, pos, kwargs, fut in batch:
+                eff = dict({"p0": 111, "p1": 222}, **kwargs)       # p2 has no preset: its default applies
+                if pos:
+                    eff["p0"] = pos[0]
+                want = canon(_takes_presets(a, **eff))
+                try:
+                    got = canon(fut.result(timeout=60))
+                except Exception as e:  # noqa
+                    got = ("EXC", type(e).__name__, repr(e)[:200])
+                ok = json.dumps(got, sort_keys=True, default=str) == json.dumps(want, sort_keys=True, default=str)
+                rec = {"mode": mname, "kind": "preset_vs_explicit", "tag": "init-%s-%d" % (mname, a), "ok": ok, "shape": sorted(kwargs) + ["pos"] * len(pos)}
+                if not ok:
+                    rec["got"], rec["want"], rec["call"] = got, want, {"a": a, "pos": pos, "kwargs": kwargs}
+                res["cases"].append(rec)
     with open(out, "w") as fh:
         json.dump(res, fh, default=str)
     os._exit(0)
+
+
+def _presets():
+    return {"p0": 111, "p1": 222}
+
+
+def _takes_presets(a, p0=1, p1=2, p2=3):
+    return (a, p0, p1, p2)
 
 
 if __name__ == "__main__":
